@@ -187,10 +187,11 @@ def op_frompath(c):
     """C06: an arbitrary path through Sid(path=, config=), and the path of the result"""
     cfg = c['cfg']
     p = _render_path(c['path'], cfg)
-    x, r = guard(lambda: Sid(path=p, config=cfg))
+    nocfg = bool(c.get('noconfig'))
+    x, r = guard((lambda: Sid(path=p)) if nocfg else (lambda: Sid(path=p, config=cfg)))
     o = dict(raised=r, lexed=_lexed(p, cfg), raw=enc(p[-80:]), **(snap(x) if not r else snap(None)))
     if not r and x:
-        b, rb = guard(lambda: x.path(cfg))
+        b, rb = guard((lambda: x.path()) if nocfg else (lambda: x.path(cfg)))
         o['back'] = dict(raised=rb, same=(not rb and b is not None and str(b) == p), path=_lexed(b, cfg) if (not rb and b is not None) else [])
     else:
         o['back'] = dict(raised='', same=False, path=[])
